@@ -41,7 +41,7 @@ Definition fresh (p : program) (omap : list (option nat)) (s : S) : S :=
                   | Some j => match index_of_old omap j with Some i => if is_block p i then Some i else Some 0%nat | None => Some 0%nat end
                   | None => None
                   end;
-     scheduled := 0; marks := marks s |}.
+     scheduled := 0; marks := marks s; macros := [] |}.
 Definition has_children (p : program) (n : nat) : bool :=
   match n_kind (nd p n) with KProgram | KBlock | KWatch | KAlarm => true | _ => false end.
 (* started or completed (and not failed) lines may not be edited *)
